@@ -30,3 +30,20 @@ class FeatureLt:
 class FeatureHash:
     def post(self, result):
         return result == hash(self.name)
+
+
+@contract(FM, 'Relation.__eq__', prop='C20')
+class RelationEq:
+    """equal relations have the same owner and the same cardinality as stored (the member sets are compared through `sorted`,
+    outside the verifier: bounded stand-in)"""
+    kinds = {'other': 'Relation'}
+    nullable = ('other',)
+
+    def pre(self, other):
+        return wf()
+
+    def post_cardinality(self, other, result):
+        return implies(result, other is not None and self.card_min == other.card_min and self.card_max == other.card_max)
+
+    def post_owner(self, other, result):
+        return implies(result, other is not None and (self.parent is None) == (other.parent is None))
